@@ -3,6 +3,7 @@ package c16
 
 import (
 	"bytes"
+	"encoding/binary"
 	"fmt"
 	"math/big"
 	"runtime"
@@ -459,6 +460,49 @@ func safeParse(s []*big.Int) (p [][]*big.Int, err error) {
 	return cmt.ParseSecrets(s)
 }
 
+// lengthFieldProbes: the per-element length suffix must be injective for LONG elements too. For a
+// shift D = 2^k the two sequences (a1, a2) and (b1, b2) below have the same concatenated framing if the
+// length field only kept the length modulo D (b1 swallows a1's delimiter and length field plus the first
+// D-9 bytes of a2, whose bytes at that position imitate a delimiter and the length field of a1):
+//   a1 = 1 byte, a2 = D+5 bytes with a2[D-9] = '$' and a2[D-8:D] = LE64(1);  b1 = a1 || '$' || LE64(1) || a2[:D-9];  b2 = a2[D:]
+// Any two distinct sequences must have distinct digests, so these pairs (and their integer / tagged
+// forms) are simply added to the enumeration.
+func lengthFieldProbes(r *core.Run) {
+	for _, k := range []uint{8, 16, 24} {
+		D := 1 << k
+		a1 := []byte{0x7f}
+		a2 := make([]byte, D+5)
+		for i := range a2 {
+			a2[i] = byte(0x41 + i%23)
+		}
+		a2[D-9] = '$'
+		binary.LittleEndian.PutUint64(a2[D-8:D], 1)
+		b1 := append(append(append([]byte{}, a1...), '$'), make([]byte, 8)...)
+		binary.LittleEndian.PutUint64(b1[2:10], 1)
+		b1 = append(b1, a2[:D-9]...)
+		b2 := append([]byte{}, a2[D:]...)
+		r.Count("hash_length_field_probes", 1)
+		name := fmt.Sprintf("length-field-modulo-2^%d", k)
+		if bytes.Equal(common.SHA512_256(a1, a2), common.SHA512_256(b1, b2)) {
+			r.Violate("hash/SHA512_256/collision/"+name, "two distinct byte-string tuples with a long element share a digest (the per-element length field does not cover the whole length)", name)
+		}
+		ia1, ia2, ib1, ib2 := new(big.Int).SetBytes(a1), new(big.Int).SetBytes(a2), new(big.Int).SetBytes(b1), new(big.Int).SetBytes(b2)
+		if common.SHA512_256i(ia1, ia2).Cmp(common.SHA512_256i(ib1, ib2)) == 0 {
+			r.Violate("hash/SHA512_256i/collision/"+name, "two distinct integer tuples with a long element share a digest", name)
+		}
+		if common.SHA512_256i_TAGGED([]byte("t"), ia1, ia2).Cmp(common.SHA512_256i_TAGGED([]byte("t"), ib1, ib2)) == 0 {
+			r.Violate("hash/SHA512_256i_TAGGED/collision/"+name, "two distinct tagged integer tuples with a long element share a digest", name)
+		}
+		// and the commitment built on the hash: (r, a1, a2) must not open as (r, b1, b2)
+		rnd := big.NewInt(12345)
+		c := cmt.NewHashCommitmentWithRandomness(rnd, ia1, ia2)
+		forged := cmt.HashCommitDecommit{C: c.C, D: []*big.Int{rnd, ib1, ib2}}
+		if forged.Verify() {
+			r.Violate("commit/edit-opens/regroup-long-element/"+name, "a commitment opens with a re-grouped sequence containing a long element", name)
+		}
+	}
+}
+
 func Run(r *core.Run) {
 	alpha := []byte{0x00, 0x01, 0x08, '$', 0xff}
 	maxSeq := 6
@@ -467,6 +511,7 @@ func Run(r *core.Run) {
 		maxSeq = 5
 	}
 	hashPart(r, alpha, 3, 3)
+	lengthFieldProbes(r)
 	commitPart(r, 4)
 	builderPart(r, maxSeq)
 	ev := r.Get("hash_bytes_tuples") + r.Get("hash_int_tuples") + r.Get("hash_tagged_inputs") + r.Get("commit_edits") + r.Get("builder_layouts") + r.Get("parse_sequences")
